@@ -2085,6 +2085,13 @@ def planetary_conjunction(alpha1_list, delta1_list, alpha2_list, delta2_list):
     # Compute lists with differences between right ascensions and declinations
     # for objects #1 and #2
     dalpha = [alpha1_list[i] - alpha2_list[i] for i in range(n_entries)]
+    # Keep the differences in the -180..+180 range, so that they stay
+    # continuous when one of the right ascensions goes through 0h
+    for i in range(n_entries):
+        if dalpha[i] > 180.0:
+            dalpha[i] = dalpha[i] - 360.0
+        elif dalpha[i] < -180.0:
+            dalpha[i] = dalpha[i] + 360.0
     ddelta = [delta1_list[i] - delta2_list[i] for i in range(n_entries)]
     # Build the interpolation objects
     i_alpha = Interpolation(n_list, dalpha)
